@@ -29,6 +29,12 @@ func c17(c *Ctx) {
 	}
 	boundsFor(c, "C17", entries)
 	nb := c17Bits(c)
+	minLenRule(c, []minLenRow{
+		{fn: "rtp.(*AbsSendTimeExtension).Unmarshal", want: []int{3}, why: "24-bit timestamp"},
+		{fn: "rtp.(*AbsCaptureTimeExtension).Unmarshal", want: []int{8, 16}, why: "64-bit timestamp, +64-bit offset in the extended form"},
+		{fn: "rtp.(*AudioLevelExtension).Unmarshal", want: []int{1}, why: "one octet"},
+		{fn: "rtp.(*PlayoutDelayExtension).Unmarshal", want: []int{3}, why: "two 12-bit delays"},
+		{fn: "rtp.(*TransportCCExtension).Unmarshal", want: []int{2}, why: "16-bit sequence number"}})
 	r.Floor("BITS table rows checked", nb, 40)
 	r.Floor("decoded fields checked by RESET.R1", nf, 8)
 	_ = core.FuncName
